@@ -338,7 +338,7 @@ pub fn property() -> Property {
         id: "C13",
         run,
         budget: |t| match t {
-            Tier::Quick => 1500,
+            Tier::Quick => 3000,
             Tier::Thorough => 100_000,
         },
         wall_cap_s: |t| match t {
